@@ -29,7 +29,7 @@ CLAIMED = {
          "Readers that abandon a request do what Request::close does and, like a closed-loop client, get no bytes of the next request before that; readers stopping at the held end header get unrestricted look-ahead.",
          "DESIGN.md section 3, C05"),
  "C06": ("exploration", PBT + " plus exhaustive enumeration of buffer sizes 0..=8192",
-         "Sizing decided for 0..=8192 and sampled to 1 MiB; sufficiency at exactly buffer_size-13-delta under aimed cuts and buffer-filling reads; converse (space always offered, StuckOnInput only with a full buffer and beyond the bound).",
+         "Sizing (>= configured, >= 24, multiple of 8) decided for 0..=8192 and sampled to 1 MiB; sufficiency at exactly buffer_size-13-delta under aimed cuts and buffer-filling reads, for fresh parsers and for parsers obtained through the conversion chain with up to a full buffer of look-ahead; converse (an unfinished parser always offers space, StuckOnInput only beyond the bound, also for GetValues pairs of about buffer size between Params records).",
          "Bound taken from the Config::buffer_size documentation; the region between documented and tight bound is informational only.",
          "DESIGN.md section 3, C06"),
  "C07": ("exploration", PBT + " on a deterministic async test bed (scripted transport, closed-loop peer, executor polling only woken tasks) against the connection model",
@@ -41,11 +41,11 @@ CLAIMED = {
          "Liveness checked as safety under a fair peer and an executor that polls exactly the woken tasks.",
          "DESIGN.md sections 3 and 6, C08"),
  "C09": ("exploration", PBT + " with a direct-poll harness on async_io::Request (operation sequences, readiness scripts)",
-         "poll_read / poll_fill_buf+consume / set_stream / writeable (also cancelled) / output_stream sequences; delivered bytes equal the active stream's content, EOF only at the true end and persistent, writeable gate vs. bytes handed out by the reader, lost wake-ups decided.",
+         "poll_read (buffers 0..196608 bytes) / poll_fill_buf+consume / set_stream / writeable (also cancelled) / output_stream sequences; delivered bytes equal the active stream's content, EOF only at the true end and persistent, writeable only once every earlier stream has ended (its end record handed to the request) or been skipped past, lost wake-ups decided; second sub-check: the same byte-exact reads on one task while 1..3 StreamWriters on other tasks hold the output lock.",
          "Compliant client (terminated streams in role order); all input available but delivered through scripted short / not-ready reads.",
          "DESIGN.md section 3, C09"),
  "C10": ("exploration", PBT + " with a direct-poll harness for 1..3 StreamWriters plus the request's own reply flushing",
-         "Generated poll orders, write sizes (0..70000), partial / pending / vectored transports; every accepted write is exactly one record (type, id, bytes, padding rule), per-writer order, replies intact, log decodable after every step, lost wake-ups on the output lock decided.",
+         "Generated poll orders, write sizes (0..70000), partial / pending / vectored transports, flush readiness scripts, writers created up front or lazily, abandoned reads, Request::close at the end; every accepted write (1..=min(len,65535) bytes) is exactly one record (type, id, bytes, padding rule), per-writer order, replies intact, log decodable after every step, exactly one end-of-request sequence, lost wake-ups on the output lock decided.",
          "Each write's first byte tags (writer, call); writers are re-polled with the same buffer as AsyncWrite requires.",
          "DESIGN.md section 3, C10"),
  "C11": ("exploration", PBT + ": abort placed after every record (sync parsers) and aborted connections on the async test bed",
@@ -57,7 +57,7 @@ CLAIMED = {
          "One-shot transport errors, permanent EOF; beyond 1200 points per kind the middle is sampled evenly.",
          "DESIGN.md section 3, C12"),
  "C13": ("exploration", PBT + ": model-based state machine over get_token / poll / drop / cancel / unwind histories; real-thread stress with a timing-independent oracle",
-         "After every operation: live tokens <= limit, immediate completion with a free slot and empty queue, free slot and queued requests implies a woken request; drain: every request obtains a token. Threads sample interleavings.",
+         "After every operation: live tokens <= limit, immediate completion with a free slot and empty queue, free slot and queued requests implies a woken request; drain: every request obtains a token; up to 3000 uncontended requests in a row must each complete on the first poll. Threads sample interleavings.",
          "The atomics inside async-lock / event-listener cannot be scheduled by this technique; invariants are evaluated between operations.",
          "DESIGN.md sections 3 and 7, C13"),
  "C14": ("exploration", PBT + ": shutdown injected before every poll of generated connections; hook-forced wait-group windows; several idle connections; real threads",
@@ -66,7 +66,7 @@ CLAIMED = {
          "DESIGN.md sections 3 and 7, C14"),
  "C15": ("exploration",
          "exhaustive enumeration against an independent codec (generated-input search with the finite domain fully covered)",
-         "Both tiers enumerate the complete domain: all 2^31 values (write/read round-trip, byte-exact against an independently written encoder, exact consumption), all 2^32 u32 inputs of TryFrom, all 2^31 four-byte encodings incl. non-canonical ones, all one-byte inputs and every truncation. The property is finite, so it is decided for this build rather than sampled.",
+         "Both tiers enumerate the complete domain: all 2^31 values (write/read round-trip, byte-exact against an independently written encoder, exact consumption, also through readers that deliver the bytes in pieces), all 2^32 u32 inputs of TryFrom plus usize values beyond 32 bits, all 2^31 four-byte encodings incl. non-canonical ones, all one-byte inputs and every truncation. The property is finite, so it is decided for this build rather than sampled.",
          "Trusts the harness's own 20-line reference encoder/decoder and std's Read/Write for slices.",
          "DESIGN.md section 3, C15"),
  "C16": ("exploration", PBT + " (round-trip, independent decoder, prefix monotonicity, pointer containment) plus exhaustive short strings; thorough tier adds a libFuzzer target",
@@ -82,7 +82,7 @@ CLAIMED = {
          "Only input-stream types are passed to set_stream (documented precondition of the comparator).",
          "DESIGN.md section 3, C18"),
  "C19": ("exploration", PBT + " over name triples and constructors + exhaustive table over every interned name",
-         "eq/cmp of borrowed and owned types vs. eq_ignore_ascii_case / upper-cased byte order, hash streams recorded call by call, constructor normalisation, map lookups by three spellings, header-name mapping; every interned name x 81 constructor pairs x three case patterns.",
+         "Equality vs. eq_ignore_ascii_case; ordering as laws (Equal exactly for equal names, antisymmetric, transitive, independent of spelling / constructor / representation - no particular order is prescribed); hash streams recorded call by call; normalising constructors; map lookups by three spellings; header-name mapping; every interned name x 81 constructor pairs x three case patterns.",
          "Interned list re-extracted from src/cgi/intern.rs at build time.",
          "DESIGN.md section 3, C19"),
  "C20": ("exploration", "exhaustive over all status codes + " + PBT + " over header lists, against an independently assembled grammar and every destination capacity",
